@@ -57,7 +57,8 @@ PROPS["C10"] = dict(
          "non-trivial = the exact output has a fractional part; stream erc20: histories of 12-34 (thorough: 12-72) messages: issue, deploy ERC20 "
          "(authority / stranger / unregistered min unit), swap to / from ERC20 (own and foreign receivers, Ethereum-only holders, blocked receiver, "
          "amounts at balance and balance+1, ERC20 disabled, EVM double misbehaving in 8 ways), ERC20 implementation upgrades (authority / stranger / bad address / reverting beacon), swap-to-native through the EVM PostTxProcessing hook "
-         "(receipts with the SwapToNative log of the bound contract after its simulated burn, plus foreign logs; zero amounts, invalid / blocked receivers), fee-token swaps over a random swap registry (also offers of 2^190..2^255, where LegacyDec overflows and the message aborts), mint; a quarter of the histories contain a token whose SYMBOL equals another token's MIN UNIT (different scales, both "
+         "(receipts with the SwapToNative log of the bound contract after its simulated burn, plus foreign logs; zero amounts, invalid / blocked receivers; "
+         "half of the hook steps are ONE EVM transaction with 2-4 SwapToNative events of the same or different bound tokens, different receivers, interleaved with Transfer logs and events of unbound contracts, all-or-nothing), fee-token swaps over a random swap registry (also offers of 2^190..2^255, where LegacyDec overflows and the message aborts), mint; a quarter of the histories contain a token whose SYMBOL equals another token's MIN UNIT (different scales, both "
          "with an ERC20 contract, a ratio-1 registry entry targeting the clashing min unit) so that symbol-first and min-unit lookups disagree; "
          "burn, update-params; non-trivial = at least one successful and one failed conversion, or a successful conversion and a successful fee swap",
     codes={1: "token-to-erc20-not-conserved", 2: "token-from-erc20-not-conserved", 3: "token-failed-conversion-changed-state",
